@@ -243,3 +243,41 @@ fn kx_del_concrete_small18() {
     assert!(r.is_ok());
     assert!(appended(&buf, &layout_array(&[a[0]])));
 }
+
+// T2: literal document, symbolic payload bytes only
+#[kani::proof]
+#[kani::unwind(18)]
+#[kani::stub(crate::parser::parse_value, no_text_e)]
+fn kx_t2_literal() {
+    let x: u8 = kani::any();
+    let doc: [u8; 14] = [0x80, 0, 0, 2, 0x20, 0, 0, 2, 0, 0, 0, 0, 0x40, x];
+    let mut buf = out_buf();
+    let r = delete_by_index(&doc, 1, &mut buf);
+    assert!(r.is_ok());
+    assert!(buf.len() == 2 + 10 && buf[2] == 0x80 && buf[5] == 1 && buf[11] == x);
+}
+
+// T3: Buf document but concrete entry words
+#[kani::proof]
+#[kani::unwind(18)]
+#[kani::stub(crate::parser::parse_value, no_text_e)]
+fn kx_t3_concrete_words() {
+    let a = [sc_num2().it, sc_null().it];
+    let doc = layout_array(&a);
+    let mut buf = out_buf();
+    let r = delete_by_index(doc.as_slice(), 1, &mut buf);
+    assert!(r.is_ok());
+    assert!(appended(&buf, &layout_array(&[a[0]])));
+}
+
+// T4: internal function directly (no is_jsonb dispatch)
+#[kani::proof]
+#[kani::unwind(18)]
+fn kx_t4_internal() {
+    let a = [sc_num2().it, sc_null().it];
+    let doc = layout_array(&a);
+    let mut buf = out_buf();
+    let r = delete_jsonb_by_index(doc.as_slice(), 1, &mut buf);
+    assert!(r.is_ok());
+    assert!(appended(&buf, &layout_array(&[a[0]])));
+}
